@@ -223,7 +223,7 @@ public:
             const XalanDOMChar*     data,
             size_type               theLength)
     {
-        for( size_type i = 0; i < theLength; )
+        for( size_type i = 0; i < theLength; ++i)
         { 
             i = write(data, i , theLength, m_exceptionFunctor); 
         }
@@ -239,7 +239,7 @@ public:
             const XalanDOMChar*     data,
             size_type               theLength)
     {
-        for( size_type i = 0; i < theLength; )
+        for( size_type i = 0; i < theLength; ++i)
         { 
             i = write(data, i , theLength, m_exceptionFunctor); 
         }
